@@ -1,5 +1,6 @@
 import IpaVerif.Model.Util
 import IpaVerif.Model.Dzkp
+import IpaVerif.Model.DzkpStore
 /-! Line-protocol handlers for property C03 (model side) and the spec-side oracle. Import-free.
 
 Requests
@@ -12,6 +13,7 @@ Requests
             | final U|V digits chs mask
   c03.hash2field lefts rights combinedhex exclude
   c03.validate api ty count mpg seed dev           dev = `-` or helper:field:record:bit
+  c03.store first max gate:record:width:f0.….f6;…   block dump per gate
 -/
 namespace IpaVerif.Driver.C03
 open IpaVerif.Util IpaVerif.PrimeField IpaVerif.Generated IpaVerif.Generated.Dzkp IpaVerif.Dzkp
@@ -111,6 +113,77 @@ def handleProof (op : String) (args : List String) : Option String :=
       pure (optNat (recursivelyComputeFinalCheck L firstL table ds chs mask))
   | _, _ => none
 
+
+/-! ### `c03.store first max gate:record:width:f0.f1.….f6;…` -/
+
+def parseSeg (width : Nat) (s : String) : Option IpaVerif.DzkpStore.Segment :=
+  match (s.splitOn ".").mapM parseHexBytes with
+  | some [a, b, c, d, e, f, g] =>
+      some { width := width, xl := ofLeBytes a, xr := ofLeBytes b, yl := ofLeBytes c, yr := ofLeBytes d,
+             pl := ofLeBytes e, pr := ofLeBytes f, zr := ofLeBytes g }
+  | _ => none
+
+def segFields : List (IpaVerif.DzkpStore.Segment → Nat) :=
+  [(·.xl), (·.xr), (·.yl), (·.yr), (·.pl), (·.pr), (·.zr)]
+
+def blockHex (b : Block) : String :=
+  String.intercalate "." ([b.xl, b.xr, b.yl, b.yr, b.pl, b.pr, b.zr].map fun v => bytesHex (leBytes v 32))
+
+def storeRun (first : Option Nat) (max : Nat) (ops : List String) : Option String := do
+  let mut b : IpaVerif.DzkpStore.Batch := { max := max, first := first, inner := [] }
+  for op in ops do
+    match op.splitOn ":" with
+    | [g, r, w, segs] =>
+        let w ← w.toNat?
+        let seg ← parseSeg w segs
+        match b.push g (← r.toNat?) seg with
+        | .ok b' => b := b'
+        | .panic m => return s!"panic:{m}"
+    | _ => none
+  let gates := b.inner.map fun (g, st) =>
+    s!" {g}=" ++ (if st.vec.isEmpty then "-" else String.intercalate "|" (st.vec.map blockHex))
+  pure (s!"n={b.numberOfMultiplications} e={boolStr b.isEmpty}" ++ String.join gates)
+
+/-- spec side of the store: every bit of every block is either the bit of the unique last-written record
+covering it or zero — computed directly from the request, independently of `insertSmall`/`insertLarge`. -/
+def storeSpec (first : Option Nat) (max : Nat) (ops : List String) : Option (Option String) := do
+  -- returns `none` inside when a panic is expected
+  let mut gates : List (String × Nat × Nat × List (Nat × IpaVerif.DzkpStore.Segment)) := []  -- gate, width, first, writes
+  for op in ops do
+    match op.splitOn ":" with
+    | [g, r, w, segs] =>
+        let w ← w.toNat?
+        let r ← r.toNat?
+        let seg ← parseSeg w segs
+        if ¬ (w ≤ 256 ∨ w % 256 = 0) then return none
+        match gates.find? (·.1 == g) with
+        | none =>
+            let f := first.getD r
+            if r < f ∨ r ≥ f + max then return none
+            gates := gates ++ [(g, w, f, [(r - f, seg)])]
+        | some (_, w0, f, ws) =>
+            if w ≠ w0 ∨ r < f ∨ r ≥ f + max then return none
+            gates := gates.map fun x => if x.1 == g then (g, w0, f, ws ++ [(r - f, seg)]) else x
+    | _ => none
+  -- gate order: ascending by name
+  let sorted := gates.toArray.qsort (fun a b => a.1 < b.1) |>.toList
+  let render := sorted.map fun (g, w, _, ws) =>
+    let stride := if w < 256 then (if w ≤ 1 then 1 else 2 ^ (Nat.log2 (w - 1) + 1)) else w
+    let top := ws.foldl (fun (m : Nat) (x : Nat × IpaVerif.DzkpStore.Segment) => Nat.max m (stride * x.1 + w)) 0
+    let nblocks := (top + 255) / 256
+    let fieldVal (k : Nat) (f : IpaVerif.DzkpStore.Segment → Nat) : Nat :=
+      (List.range 256).foldl (fun acc q =>
+        let n := 256 * k + q
+        -- last write covering bit n wins
+        let bitv := ws.foldl (fun (cur : Bool) (x : Nat × IpaVerif.DzkpStore.Segment) =>
+          if stride * x.1 ≤ n ∧ n < stride * x.1 + w then (f x.2).testBit (n - stride * x.1) else cur) false
+        if bitv then acc + 2 ^ q else acc) 0
+    let blocks := (List.range nblocks).map fun k =>
+      String.intercalate "." (segFields.map fun f => bytesHex (leBytes (fieldVal k f) 32))
+    (nblocks, s!" {g}=" ++ (if blocks.isEmpty then "-" else String.intercalate "|" blocks))
+  let total := render.foldl (fun a x => a + 256 * x.1) 0
+  pure (some (s!"n={total} e={boolStr (render.all fun x => x.1 == 0)}" ++ String.join (render.map (·.2))))
+
 def handle (toks : List String) : Option String :=
   match toks with
   | ["c03.consts"] => some s!"{inverseOfTwo} {minusOneHalf} {minusTwo}"
@@ -151,6 +224,9 @@ def handle (toks : List String) : Option String :=
   | ["c03.validate", _api, _ty, _count, _mpg, _seed, dev] => some <| (do
       let d ← parseDev dev
       pure (verdicts d)).getD "bad-request"
+  | ["c03.store", first, max, ops] => some <| (do
+      let f ← if first == "-" then some none else first.toNat?.map some
+      storeRun f (← max.toNat?) (ops.splitOn ";")).getD "bad-request"
   | _ => none
 
 /-! ## spec side: plain arithmetic modulo p, Fermat inverses, bit formulas -/
@@ -295,6 +371,11 @@ def oracle (toks : List String) (impl : String) : Option String :=
       let r ← impl.toNat?
       pure (ex ≤ r && r < p && r == ofLeBytes (bs.take 16) % (p - ex) + ex)) "challenge lies inside the excluded interpolation domain or is not canonical"
   | ["c03.validate", _api, _ty, _count, _mpg, _seed, dev] => verdictOracle dev impl
+  | ["c03.store", first, max, ops] => verdict (do
+      let f ← if first == "-" then some none else first.toNat?.map some
+      match ← storeSpec f (← max.toNat?) (ops.splitOn ";") with
+      | none => pure (impl.startsWith "panic")
+      | some exp => pure (impl == exp)) "stored blocks are not exactly the pushed segments at stride next_pow2(width) (others zero), or an out-of-range record was accepted"
   | "c03.table" :: _ => some "unknown"
   | "c03.proof" :: _ => some "unknown"
   | _ => none
